@@ -8,6 +8,9 @@ gamma shape in {a+K-1, a+K} matching the Bernoulli outcome, scale 1/r; returned 
 Thorough: 2-D quadrature of the implemented transition kernel against the conditional posterior p(alpha | K, n).
 Call site: update_concentration_value receives (alpha, #clones, #non-outlier points) and the new value is used by
 later density evaluations.
+Run loop: run._run_main_sampler with scripted stand-in moves (three trees per sweep that differ in clone count and
+outlier set) and a recording concentration sampler: sweep i must call the update with (alpha, K, n) of the tree the
+sweep ends with, and record the returned value and the density under it.
 """
 import math
 
@@ -26,7 +29,7 @@ STRATIFIED = True
 RULE = (
     "Hypothesis draws a, b, alpha in (1e-3, 50), 1 <= K <= n <= 200, a scripted auxiliary value eta in (0,1) (incl. values "
     "near 0 and 1), a scripted Bernoulli outcome and gamma variate; every fourth shard draws trees with outliers for the "
-    "call site. Non-trivial: K >= 2 (sampler) / K >= 2 with outliers present (call site). Distinct: the drawn tuple."
+    "call site, every eighth shard scripted run-loop sweeps. Non-trivial: K >= 2 (sampler) / K >= 2 with outliers present (call site). Distinct: the drawn tuple."
 )
 ASSUMPTIONS = [
     "the sampler draws through Generator.beta / binomial / standard_gamma (directly or via scipy .rvs(random_state=rng))",
